@@ -133,8 +133,10 @@ func (c *syncMap) DeleteAll(ctx context.Context) {
 	cnt := 0
 
 	c.data.Range(func(key, _ interface{}) bool {
-		c.data.Delete(key)
-		cnt++
+		// Counting only entries removed by this call, a concurrent Delete or DeleteAll may have removed the key already.
+		if _, loaded := c.data.LoadAndDelete(key); loaded {
+			cnt++
+		}
 
 		return true
 	})
